@@ -12,7 +12,7 @@
    LTS of Model/Buffer.v: k and the kind of stop are the write script of the EAccept / ELeftover / ESaveWrite
    event (ws_n = Some k with or without error, ws_kill = 1..4), the position is the history before it. *)
 From SV Require Import Model.Common Model.FileWrite Model.Buffer Model.SpillFaults Spec.BufferSpec
-     Proofs.FileWriteProofs Proofs.BufferInv Proofs.BufferTheorems Proofs.BufferExamples.
+     Proofs.FileWriteProofs Proofs.BufferInv Proofs.BufferTheorems Proofs.BufferExamples Proofs.DrainProofs.
 
 (* Intact or not at all, for what is sent upstream.  In every reachable state - after any faults, crashes and
    restarts - a chunk offered to a consumer under an ID that was ever given to Accept on this directory carries
@@ -99,6 +99,20 @@ Theorem C04_feeder_takes_next :
 Proof. exact feeder_takes_lemma. Qed.
 Print Assumptions C04_feeder_takes_next.
 
+(* (3) Put together: from every reachable state in which no bufferer runs, after a start-up there is a schedule
+   (the feeder runs, a consumer takes and confirms one chunk at a time) on which the consumer receives exactly
+   the recovered chunks whose file is a non-empty regular file, each with its content, in name order - whatever
+   empty files, directories or vanished names lie between them - and queue, window and consumer end empty. *)
+Theorem C04_recovery_delivers_good :
+  forall matchf dirsize, matcher_ok matchf ->
+  forall s Q M maxb, reachable matchf dirsize s -> down s = true -> (1 <= Q)%nat -> (1 <= M)%nat ->
+  exists evs s',
+    run matchf dirsize s (ERestart Q M maxb true :: ERegister :: evs) = Some s' /\
+    st_queue s' = [] /\ st_win s' = [] /\ st_hold s' = [] /\
+    received s' = delivered (st_dir s) (recovered_names matchf Q (st_dir s)).
+Proof. exact recovery_delivers_good_reachable. Qed.
+Print Assumptions C04_recovery_delivers_good.
+
 (* What was wrong before the two fix: commits (write_file_at_v0 = open+truncate the final name, one write whose
    count is ignored, close).  (a) A short write without error is reported as success and leaves a truncated,
    non-empty file under the chunk's ID: UnloadChunk marked it saved and the truncated chunk was forwarded.
@@ -120,7 +134,7 @@ Print Assumptions C04_crash_mid_write_v0_refuted.
    package's unit tests) the temporary file left by a crash is recovered and a truncated chunk - 2 of the 5
    bytes given to Accept for b.ff - is offered to the consumer. *)
 Theorem C04_permissive_matcher_refuted :
-  exists s h, replay match_all 4096 0 crash_ops (init []) 0 = inl (s, h) /\
+  exists s h, replay match_all 4096 0 (map ROp crash_ops) None (init []) 0 = inl (s, h) /\
     map (fun c => (c_id c, c_data c)) (g_offered (st_gh s)) = [(n_a, Some [1; 2; 3]); (tmp_name n_b, Some [4; 5])] /\
     In (n_b, [4; 5; 6; 7; 8]) (st_ever s).
 Proof. exact ex_permissive_matcher. Qed.
@@ -131,7 +145,7 @@ Print Assumptions C04_permissive_matcher_refuted.
    without error - reported, chunk dropped and counted, the other chunks delivered; an empty file, a directory
    and a stale temporary file among recovered chunks - the good ones are delivered. *)
 Theorem C04_example_crash :
-  exists s h, replay match_ff 4096 0 crash_ops (init []) 0 = inl (s, h) /\
+  exists s h, replay match_ff 4096 0 (map ROp crash_ops) None (init []) 0 = inl (s, h) /\
     dir_get (st_dir s) n_b = None /\ dir_get (st_dir s) (tmp_name n_b) = Some (EFile [4; 5]) /\
     map (fun c => (c_id c, c_data c)) (g_offered (st_gh s)) = [(n_a, Some [1; 2; 3])] /\
     st_queue s = [] /\ st_fpc s = FRecv.
@@ -139,7 +153,7 @@ Proof. exact ex_crash_mid_write. Qed.
 Print Assumptions C04_example_crash.
 
 Theorem C04_example_short_write :
-  exists s h, replay match_ff 4096 0 short_ops (init []) 0 = inl (s, h) /\
+  exists s h, replay match_ff 4096 0 (map ROp short_ops) None (init []) 0 = inl (s, h) /\
     g_dropped (st_gh s) = [n_b] /\ m_dropped (st_met s) = 1%Z /\ m_ioerr (st_met s) = 1%Z /\
     map (fun c => (c_id c, c_data c)) (taken (st_gh s)) = [(n_a, Some [1; 2; 3]); (n_c, Some [9])] /\
     dir_get (st_dir s) n_b = None /\ dir_get (st_dir s) (tmp_name n_b) = None.
@@ -147,7 +161,7 @@ Proof. exact ex_short_write. Qed.
 Print Assumptions C04_example_short_write.
 
 Theorem C04_example_damaged_recovery :
-  exists s h, replay match_ff 4096 0 damaged_ops (init []) 0 = inl (s, h) /\
+  exists s h, replay match_ff 4096 0 (map ROp damaged_ops) None (init []) 0 = inl (s, h) /\
     map (fun c => (c_id c, c_data c)) (taken (st_gh s)) = [(n_a, Some [1; 2]); (n_d, Some [8])] /\
     g_dropped (st_gh s) = [n_b; n_c] /\ m_dropped (st_met s) = 2%Z /\ st_queue s = [].
 Proof. exact ex_damaged_recovery. Qed.
